@@ -114,6 +114,11 @@ spifconf_register_context(spif_charptr_t name, ctx_handler_t handler)
     ASSERT_RVAL(!SPIF_PTR_ISNULL(handler), (unsigned char) -1);
 
     if (strcasecmp((char *) name, "null")) {
+        if (ctx_idx == (unsigned char) -2) {
+            /* Context IDs are 8 bits wide and the last one is the error value. */
+            libast_print_error("Unable to register context \"%s\":  Too many contexts\n", name);
+            return ((unsigned char) -1);
+        }
         if (++ctx_idx == ctx_cnt) {
             ctx_cnt *= 2;
             context = (ctx_t *) REALLOC(context, sizeof(ctx_t) * ctx_cnt);
